@@ -116,12 +116,12 @@ type c14Sink struct {
 	k        int // byte index that cannot be stored; -1 = none
 	failCall int // index of the Write call that fails (call* modes); -1 = none
 	nwrites  int
-	short   bool
-	sticky  bool
-	oneshot bool // transient: only the first write that would cross k fails, later writes are accepted
-	failed  bool
-	call    int
-	trace   []c14W
+	short    bool
+	sticky   bool
+	oneshot  bool // transient: only the first write that would cross k fails, later writes are accepted
+	failed   bool
+	call     int
+	trace    []c14W
 	// first failure
 	heldAtFail int
 	noTrace    bool
@@ -597,10 +597,18 @@ func c14TempCleanup() {
 	}
 }
 
-type c14Keys struct{ key []byte }
+type c14Keys struct {
+	key  []byte
+	cols map[string][]byte // keys of the columns that have one of their own, by dotted path
+}
 
-func (k c14Keys) FooterKey([]byte) ([]byte, error)           { return k.key, nil }
-func (k c14Keys) ColumnKey([]string, []byte) ([]byte, error) { return k.key, nil }
+func (k c14Keys) FooterKey([]byte) ([]byte, error) { return k.key, nil }
+func (k c14Keys) ColumnKey(path []string, _ []byte) ([]byte, error) {
+	if ck, ok := k.cols[strings.Join(path, ".")]; ok {
+		return ck, nil
+	}
+	return k.key, nil
+}
 
 func c14Configs(ctx *core.Ctx) []*c14Config {
 	r := ctx.Rand("c14/configs")
@@ -697,7 +705,20 @@ func c14Configs(ctx *core.Ctx) []*c14Config {
 			parquet.WithEncryption(&parquet.EncryptionConfig{FooterKey: key, EncryptedFooter: encFooter, FileIdentifier: []byte("fileid00")}),
 			bloom, parquet.MaxRowsPerRowGroup(25))
 		c.nondet = true
-		c.fileOpts = []parquet.FileOption{parquet.WithDecryption(c14Keys{key})}
+		c.fileOpts = []parquet.FileOption{parquet.WithDecryption(c14Keys{key: key})}
+	}
+	// encrypted columns spread over many small pages (with and without a dictionary page), columns
+	// with a key of their own (16 and 32 bytes) next to columns under the footer key, both page
+	// versions, both footer modes: every page is a pair of length-prefixed envelopes, the readat
+	// sub-check ends the source on each of their seams. (AES_GCM_CTR_V1 is not implemented by the
+	// library: NewWriter panics with "not yet implemented".)
+	for i, encFooter := range []bool{true, false} {
+		colKeys := map[string][]byte{"v": []byte("fedcba9876543210"), "s": []byte("0123456789abcdef0123456789abcdef")}
+		c := local(fmt.Sprintf("encrypted-pages-footer=%v", encFooter), fmt.Sprintf("encryption encryptedFooter=%v column keys(v,s) v%d pagebuf=96 maxrows=25", encFooter, 1+i), 40, true, []int{40},
+			parquet.WithEncryption(&parquet.EncryptionConfig{FooterKey: key, ColumnKeys: colKeys, EncryptedFooter: encFooter, FileIdentifier: []byte("fileid01")}),
+			parquet.DataPageVersion(1+i), parquet.PageBufferSize(96), parquet.MaxRowsPerRowGroup(25))
+		c.nondet = true
+		c.fileOpts = []parquet.FileOption{parquet.WithDecryption(c14Keys{key: key, cols: colKeys})}
 	}
 	// one dictionary-encoded column spread over many pages of one row group (a SeekToRow into a
 	// later page loads the dictionary lazily)
@@ -1475,6 +1496,7 @@ type c14File struct {
 	cols     [][]gen.Triple
 	nrows    int
 	opts     []parquet.FileOption
+	crypt    bool  // the columns are encrypted (pages, bloom filters and indexes are envelopes)
 	marks    []int // interesting offsets (write boundaries)
 	only     bool  // replay: only the prefix of onlyN bytes / only the failing call onlyN
 	onlyN    int
@@ -1502,7 +1524,7 @@ func c14Files(ctx *core.Ctx) []*c14File {
 		if err != nil {
 			continue
 		}
-		f := &c14File{name: c.name, desc: c.desc, data: sink.data, cols: cols, nrows: nrows, opts: c.fileOpts}
+		f := &c14File{name: c.name, desc: c.desc, data: sink.data, cols: cols, nrows: nrows, opts: c.fileOpts, crypt: c.nondet}
 		off := 0
 		for _, w := range sink.trace {
 			if w.len > 1 {
@@ -1682,7 +1704,7 @@ func c14ReplayOpen(ctx *core.Ctx, req string) {
 	}
 	var opts []parquet.FileOption
 	if f[1] == "1" {
-		opts = append(opts, parquet.WithDecryption(c14Keys{[]byte("0123456789abcdef")}))
+		opts = append(opts, parquet.WithDecryption(c14Keys{key: []byte("0123456789abcdef")}))
 	}
 	var oerr error
 	func() {
@@ -1882,7 +1904,7 @@ func c14OpenMalformed(ctx *core.Ctx) {
 		enc := r.Intn(2)
 		var opts []parquet.FileOption
 		if enc == 1 {
-			opts = append(opts, parquet.WithDecryption(c14Keys{[]byte("0123456789abcdef")}))
+			opts = append(opts, parquet.WithDecryption(c14Keys{key: []byte("0123456789abcdef")}))
 		}
 		var oerr error
 		func() {
@@ -2335,6 +2357,7 @@ func c14SeekPagesVia(r io.ReaderAt, size int64, f *c14File, num, den int64, dict
 
 func c14ReadAtFile(ctx *core.Ctx, f *c14File, sample bool) {
 	bounds := c14PageBounds(f)
+	ctx.Hist("readat.page-bounds "+f.name, sizeBucket(len(bounds)))
 	for _, h := range c14Histories(ctx) {
 		if f.only && f.onlyHist != "" && f.onlyHist != h.name {
 			continue
@@ -2449,6 +2472,11 @@ func c14ReadAtHistory(ctx *core.Ctx, f *c14File, h c14History, bounds []int64, s
 				ctx.Sample(detail)
 			}
 			hk := "history=" + strings.SplitN(h.name, "-", 2)[0]
+			if f.crypt {
+				// the envelope readers of encrypted columns are code of their own: a defect that
+				// shows on encrypted files only is told apart from one of the plain page path
+				hk += " encrypted-columns"
+			}
 			switch class {
 			case "panic":
 				ctx.Fail("L1", "readat-fault-panics mode="+mode+" "+hk+" "+panicClass(err.Error()), fmt.Sprintf("ReadAt call %d fails (%s) and the reader panics", i, mode), detail)
@@ -2456,6 +2484,8 @@ func c14ReadAtHistory(ctx *core.Ctx, f *c14File, h c14History, bounds []int64, s
 				key := "readat-fault-alters-rows mode=" + mode
 				if h.name != "sequential" {
 					key += " " + hk
+				} else if f.crypt {
+					key += " encrypted-columns"
 				}
 				what := "the reader returns fewer or different rows without an error"
 				if strings.HasPrefix(h.name, "lookup") {
@@ -2516,10 +2546,38 @@ func c14PageBounds(f *c14File) (bounds []int64) {
 			set[pl.Offset+int64(pl.CompressedPageSize)] = true
 		}
 	}
+	// Encrypted modules (page header, page body, bloom filter header and bitset, column and
+	// offset index of an encrypted column) are envelopes `len(4, LE) || nonce(12) || ciphertext
+	// [|| tag(16)]` laid end to end: the reader takes each with two io.ReadFull (length, then the
+	// rest), so a source that ends exactly between two envelopes, after a length prefix or after a
+	// nonce hands the *bare* io.EOF of a 0-byte ReadFull to the page reader - the only places where
+	// the end of the source can be mistaken for the regular end of a chunk. No thrift header can be
+	// decoded there without the key: the cuts come from walking the length prefixes.
+	envelopes := func(off, end int64, max int) {
+		for k := 0; k < max && off > 0 && off+4 <= end && end <= int64(len(f.data)); k++ {
+			ln := int64(binary.LittleEndian.Uint32(f.data[off:]))
+			if ln < 12 || off+4+ln > end {
+				return
+			}
+			set[off], set[off+4], set[off+4+12], set[off+4+ln] = true, true, true, true
+			off += 4 + ln
+		}
+	}
 	for _, rg := range pf.Metadata().RowGroups {
 		for _, cc := range rg.Columns {
 			page(cc.MetaData.DataPageOffset)
 			page(cc.MetaData.DictionaryPageOffset)
+			if cc.CryptoMetadata.Value == nil {
+				continue
+			}
+			start := cc.MetaData.DataPageOffset
+			if d := cc.MetaData.DictionaryPageOffset; d > 0 && d < start {
+				start = d
+			}
+			envelopes(start, start+cc.MetaData.TotalCompressedSize, 1<<20)
+			envelopes(cc.MetaData.BloomFilterOffset, int64(len(f.data)), 2)
+			envelopes(cc.ColumnIndexOffset, cc.ColumnIndexOffset+int64(cc.ColumnIndexLength), 1)
+			envelopes(cc.OffsetIndexOffset, cc.OffsetIndexOffset+int64(cc.OffsetIndexLength), 1)
 		}
 	}
 	for b := range set {
